@@ -113,13 +113,13 @@ def r03_1_2(chk, facts):
             chk.require(nsusp >= 8, '%s: only %d suspend points recognised (expected >= 8)' % (fn['q'], nsusp))
 
 PARSERS = [('core', 'basic_json_parser'), ('cbor', 'basic_cbor_parser'), ('msgpack', 'basic_msgpack_parser'),
-           ('ubjson', 'basic_ubjson_parser'), ('bson', 'basic_bson_parser')]
+           ('ubjson', 'basic_ubjson_parser'), ('bson', 'basic_bson_parser'), ('csv', 'basic_csv_parser')]
 EVENTS = ('null_value', 'bool_value', 'int64_value', 'uint64_value', 'double_value', 'half_value', 'string_value', 'byte_string_value',
           'begin_array', 'end_array', 'begin_object', 'end_object', 'key', 'typed_array', 'begin_multi_dim', 'end_multi_dim')
 
 def _is_visitor_event(c):
     return A.is_call(c) and A.callee_name(c) in EVENTS and 'visitor' in A.strip_targs(c.get('cq', '')) and \
-           A.ref_name(c.get('obj')) in ('visitor', 'visitor_')
+           A.ref_name(c.get('obj')) in ('visitor', 'visitor_', 'local_visitor')
 
 def _sets_more_stop(node):
     """Statement assigns more_ from !cursor_mode_ (or false)."""
@@ -202,6 +202,35 @@ def r03_6(chk, tier):
                                                for x in guards_region(g, t_edges[0])):
                                 ok = True
                 facts_ = {'function': fn['q'], 'line': c.get('l')}
+                # the test must see the level the container was opened at: no decrement of a level counter between the previous
+                # event and the close, nor between the close and its mark-level test
+                if ok and nd is not None:
+                    ev_nodes = [g.node_of(e2) for e2 in A.walk_no_lambda(fn['body']) if _is_visitor_event(e2)]
+                    ev_nodes = [x for x in ev_nodes if x is not None and x is not nd]
+                    marks = [m for m in g.rpo if m.kind == 'cond' and 'mark_level' in A.text(m.ast) and g.can_reach(nd, [m], avoid=ev_nodes)]
+                    ctrs = set()
+                    for m in marks:
+                        for y in A.walk(m.ast):
+                            if y.get('k') == 'MemberExpr' and y.get('n') != 'mark_level_' and 'level' in y.get('n', '') and y.get('dk') != 'CXXMethod': ctrs.add(y['n'])
+                            if y.get('k') in A.CALLS and 'level' in (A.callee_name(y) or ''):
+                                cal = facts.callee(fn, y)
+                                if cal is not None and cal.get('body') is not None:
+                                    for z in A.walk(cal['body']):
+                                        if z.get('k') == 'MemberExpr' and 'level' in z.get('n', '') and z.get('n') != 'mark_level_': ctrs.add(z['n'])
+                    decs = []
+                    for x in g.rpo:
+                        if x.kind in ('stmt', 'cond') and isinstance(x.ast, dict):
+                            for y in A.walk_no_lambda(x.ast):
+                                if y.get('k') == 'UnaryOperator' and y.get('op') == '--' and (A.strip(y.get('sub'), casts=True) or {}).get('n') in ctrs: decs.append(x)
+                    early = None
+                    for d in decs:
+                        between = any(g.can_reach(s2, [d], avoid=ev_nodes + marks) for s2 in nd.succ) and any(g.can_reach(s2, marks, avoid=ev_nodes + [nd]) for s2 in d.succ)
+                        before = g.dominates(d, nd) and any(g.can_reach(s2, [nd], avoid=ev_nodes) for s2 in d.succ)
+                        if between or before: early = d; break
+                    if early is not None:
+                        chk.fail('R03.6', site, fn['file'], early.line, '%s in %s::%s: the level counter is decremented at line %s before the mark-level test of this close, so the cursor stops one level too deep (or not at all)' % (
+                            A.callee_name(c), cls, fn['n'], early.line), facts_, fn['q'])
+                        continue
                 if ok: chk.ok('R03.6', site, facts_)
                 else:
                     chk.fail('R03.6', site, fn['file'], c.get('l'), '%s in %s::%s has no mark-level stop (`if (level() == mark_level_) more_ = false`): '
